@@ -15,6 +15,23 @@ func VH_C01_crud() {
 		vAssert("C01.pre.insert", err == nil)
 		rows = append(rows, vhRow{o.UUID(), *o})
 	}
+	// async mode: the builder's objects may already be on disk
+	if cfg.async && vChoice("preflush", 2) == 1 {
+		vAssert("C01.preflush", db.FlushAllAndCommit(&vObj{}) == nil)
+	}
+	H := vBound("H", 1)
+	for h := 0; h < H; h++ {
+		db, rows = vhC01Step(db, root, rows)
+		if db == nil {
+			return
+		}
+	}
+	vhCheckReads("C01.after", db, rows)
+}
+
+// vhC01Step performs one operation of every kind and updates the model.
+func vhC01Step(db *DB, root string, rows []vhRow) (*DB, []vhRow) {
+	pre := len(rows)
 	switch vChoice("op", 8) {
 	case 0: // insert a new object: fresh distinct uuid
 		o := vhNewObj()
@@ -28,16 +45,20 @@ func VH_C01_crud() {
 		err := db.InsertOrUpdate(o)
 		vAssert("C01.insert_ident.ok", err == nil)
 		vAssert("C01.insert_ident.kept", o.UUID() == "12345678-1234-4234-8234-123456789abc")
-		rows = append(rows, vhRow{o.UUID(), *o})
+		if k := vhFindRow(rows, o.UUID()); k >= 0 {
+			rows[k].o = *o // the identifier is already stored: this was an update
+		} else {
+			rows = append(rows, vhRow{o.UUID(), *o})
+		}
 	case 2: // update an existing object (read back, modify, save)
 		if pre == 0 {
-			return
+			return nil, nil
 		}
 		k := vLen("k", 0, pre-1)
 		got, err := db.GetByUUID(&vObj{}, rows[k].uuid)
 		vAssert("C01.update.get", err == nil)
 		if err != nil {
-			return
+			return nil, nil
 		}
 		o := got.(*vObj)
 		o.A, o.U = vInt64("A2"), vUint64("U2")
@@ -47,7 +68,7 @@ func VH_C01_crud() {
 		rows[k].o = *o
 	case 3: // delete an existing object
 		if pre == 0 {
-			return
+			return nil, nil
 		}
 		k := vLen("k", 0, pre-1)
 		o := &vObj{}
@@ -80,5 +101,5 @@ func VH_C01_crud() {
 	case 7: // close and reopen
 		db = vhReopen(db, root)
 	}
-	vhCheckReads("C01.after", db, rows)
+	return db, rows
 }
